@@ -1,6 +1,6 @@
 (** Proofs about the scalar codecs, [scalar_from_bytes] and the [keygen_bls] reduction
     (model: ScalarCodec.v). *)
-From Coq Require Import NArith List Lia.
+From Coq Require Import NArith List Lia Arith.
 From CB Require Import Crypto.ScalarCodec.
 Import ListNotations.
 Local Open Scope N_scope.
@@ -38,7 +38,8 @@ Proof.
   replace ((be_val bs * 256 + b) / 256) with (be_val bs)
     by (rewrite N.div_add_l by lia; rewrite (N.div_small b) by assumption; lia).
   replace ((be_val bs * 256 + b) mod 256) with b
-    by (rewrite N.add_comm, N.mod_add by lia; rewrite N.mod_small by assumption; reflexivity).
+    by (replace (be_val bs * 256 + b) with (b + be_val bs * 256) by lia; rewrite N.mod_add by lia;
+        rewrite N.mod_small by assumption; reflexivity).
   rewrite IH by assumption. reflexivity.
 Qed.
 
@@ -80,10 +81,10 @@ Qed.
 Lemma to_le_le_val bs : bytes_ok bs -> to_le (length bs) (le_val bs) = bs.
 Proof.
   induction 1 as [|b bs Hb _ IH]; [reflexivity|]. cbn [length to_le le_val].
-  replace ((b + 256 * le_val bs) mod 256) with b
-    by (rewrite N.add_comm, N.mul_comm, N.mod_add by lia; rewrite N.mod_small by assumption; reflexivity).
-  replace ((b + 256 * le_val bs) / 256) with (le_val bs)
-    by (rewrite N.add_comm, N.mul_comm, N.div_add_l by lia; rewrite (N.div_small b) by assumption; lia).
+  replace (b + 256 * le_val bs) with (le_val bs * 256 + b) by lia.
+  rewrite N.div_add_l by lia. rewrite (N.div_small b) by assumption. rewrite N.add_0_r.
+  replace (le_val bs * 256 + b) with (b + le_val bs * 256) by lia.
+  rewrite N.mod_add by lia. rewrite N.mod_small by assumption.
   rewrite IH. reflexivity.
 Qed.
 
@@ -107,8 +108,8 @@ Qed.
 Lemma le_val_split k : forall bs, le_val bs = le_val (firstn k bs) + 256 ^ N.of_nat k * le_val (skipn k bs).
 Proof.
   induction k as [|k IH]; intros bs.
-  - cbn [firstn skipn le_val]. cbn. lia.
-  - destruct bs as [|b bs]; [cbn; lia|]. cbn [firstn skipn le_val]. rewrite (IH bs) at 1.
+  - change (N.of_nat 0) with 0. rewrite N.pow_0_r. cbn [firstn skipn le_val]. lia.
+  - destruct bs as [|b bs]; [cbn [firstn skipn le_val]; lia|]. cbn [firstn skipn le_val]. rewrite (IH bs) at 1.
     replace (N.of_nat (S k)) with (1 + N.of_nat k) by lia. rewrite N.pow_add_r, N.pow_1_r. lia.
 Qed.
 
@@ -119,14 +120,29 @@ Proof.
 Qed.
 
 Lemma bytes_ok_firstn k bs : bytes_ok bs -> bytes_ok (firstn k bs).
-Proof. intros H. apply Forall_forall. intros x Hx. rewrite Forall_forall in H. apply H. eapply In_firstn. exact Hx. Qed.
+Proof.
+  unfold bytes_ok. intros H. revert k. induction H as [|b bs Hb _ IH]; intros k.
+  - destruct k; constructor.
+  - destruct k; cbn [firstn]; constructor; [assumption|apply IH].
+Qed.
 Lemma bytes_ok_skipn k bs : bytes_ok bs -> bytes_ok (skipn k bs).
-Proof. intros H. apply Forall_forall. intros x Hx. rewrite Forall_forall in H. apply H. eapply In_skipn. exact Hx. Qed.
+Proof.
+  unfold bytes_ok. intros H. revert k. induction H as [|b bs Hb Hbs IH]; intros k.
+  - destruct k; constructor.
+  - destruct k; cbn [skipn]; [constructor; assumption|apply IH].
+Qed.
 
 Lemma le_val_firstn_bound k bs : bytes_ok bs -> le_val (firstn k bs) < 256 ^ N.of_nat k.
 Proof.
   intros H. eapply N.lt_le_trans; [apply le_val_bound, bytes_ok_firstn, H|].
   apply N.pow_le_mono_r; [lia|]. pose proof (firstn_le_length k bs). lia.
+Qed.
+
+Lemma skipn_skipn' {A} a : forall b (l : list A), skipn a (skipn b l) = skipn (b + a) l.
+Proof.
+  induction b as [|b IH]; intros l; [reflexivity|]. destruct l as [|x l]; cbn [skipn Nat.add].
+  - destruct a; reflexivity.
+  - apply IH.
 Qed.
 
 (** the four 64-bit limbs are the base-2^64 digits of the first 32 bytes *)
@@ -138,9 +154,9 @@ Proof.
   rewrite (le_val_split 8 (firstn 32 bs)). rewrite firstn_firstn. cbn [Nat.min].
   rewrite skipn_firstn_comm. cbn [Nat.sub].
   rewrite (le_val_split 8 (firstn 24 (skipn 8 bs))). rewrite firstn_firstn. cbn [Nat.min].
-  rewrite skipn_firstn_comm, skipn_skipn. cbn [Nat.sub Nat.add].
+  rewrite skipn_firstn_comm, skipn_skipn'. cbn [Nat.sub Nat.add].
   rewrite (le_val_split 8 (firstn 16 (skipn 16 bs))). rewrite firstn_firstn. cbn [Nat.min].
-  rewrite skipn_firstn_comm, skipn_skipn. cbn [Nat.sub Nat.add].
+  rewrite skipn_firstn_comm, skipn_skipn'. cbn [Nat.sub Nat.add].
   change (256 ^ N.of_nat 8) with (2 ^ 64). reflexivity.
 Qed.
 
@@ -158,7 +174,7 @@ Proof.
   set (l0 := sfb_limb bs 0) in *. set (l1 := sfb_limb bs 1) in *. set (l2 := sfb_limb bs 2) in *.
   set (l3 := sfb_limb bs 3) in *. set (m := 64 - remove).
   assert (E : (l0 + 2 ^ 64 * (l1 + 2 ^ 64 * (l2 + 2 ^ 64 * l3))) mod 2 ^ (256 - remove)
-              = l0 + 2 ^ 64 * (l1 + 2 ^ 64 * (l2 + 2 ^ 64 * (l3 mod 2 ^ m + 0)))).
+              = l0 + 2 ^ 64 * (l1 + 2 ^ 64 * (l2 + 2 ^ 64 * (l3 mod 2 ^ m + 2 ^ 64 * 0)))).
   { replace (256 - remove) with (192 + m) by (unfold m; lia). rewrite N.pow_add_r.
     set (T := l0 + 2 ^ 64 * (l1 + 2 ^ 64 * l2)).
     assert (HT : T < 2 ^ 192) by (unfold T; change (2 ^ 192) with (2 ^ 64 * (2 ^ 64 * 2 ^ 64)); nia).
@@ -204,7 +220,7 @@ Qed.
 
 Lemma bytes_ok_pad32 bs : bytes_ok bs -> bytes_ok (pad32 bs).
 Proof.
-  intros H. unfold pad32. apply Forall_app. split; [assumption|].
+  unfold bytes_ok. intros H. unfold pad32. apply Forall_app. split; [assumption|].
   apply Forall_forall. intros x Hx. apply repeat_spec in Hx. subst. reflexivity.
 Qed.
 
@@ -238,7 +254,7 @@ Proof.
   rewrite Hval.
   assert (Hr : bls_r <> 0) by discriminate.
   rewrite N.add_mod_idemp_r by assumption.
-  rewrite N.mul_mod_idemp_r by assumption.
+  rewrite (N.mod_small (2 ^ 248) bls_r) by reflexivity.
   f_equal. lia.
 Qed.
 
